@@ -37,70 +37,28 @@ HEADER = """From Coq Require Import List ZArith Bool. Import ListNotations.
 From PV Require Import Fort.Syntax Fort.Sem C11.Access C12.InOut C13.AccData.
 Open Scope Z_scope.
 Definition x_accept (x : xstmt) : bool := match x with XCore s => s_accept s | XCall _ => true end.
-Definition core_of (xs : list xstmt) : list stmt :=
-  flat_map (fun x => match x with XCore s => [s] | XCall _ => [] end) xs.
-(* case: region, declared arrays, implementation accepted?, copyin, copyout, copy, culprit arrays
-   result: (verdict agrees, clauses agree (true when refused), copyout_write_only, reason codes) *)
+(* case: region (with calls), declared arrays, implementation accepted?, copyin, copyout, copy, culprit arrays
+   result: (verdict agrees, clauses agree (true when refused), copyout arrays never read, reason codes) *)
 Definition c13_case := (list xstmt * list name * bool * list name * list name * list name * list name)%type.
 Definition eval_case (c : c13_case) : bool * bool * bool * list nat :=
   match c with (xs, arrs, acc, cin, cout, cpy, cs) =>
     let isarr := fun x => mem x arrs in
     (Bool.eqb (forallb x_accept xs) acc,
      if acc then clauses_agree (xs, arrs, cin, cout, cpy) else true,
-     copyout_write_only isarr (core_of xs),
-     map (acc_reason isarr (core_of xs)) cs)
+     forallb (fun x => negb (isread x (xaccs false xs))) (in_clause isarr (xaccs false xs) CopyOut),
+     map (x_reason isarr xs) cs)
   end.
-(* cross-check of the harness' two-memory evaluator: (region, arrays, junk, store, expected final values) *)
-Definition dev_case := (list stmt * list name * Z * store * list (loc * Z))%type.
+(* cross-check of the harness' two-memory evaluator against exec_dev with the SAME clause lists:
+   (semantics of the region, arrays, copyin, copyout, copy, junk, store, expected final values) *)
+Definition dev_case := (list stmt * list name * list name * list name * list name * Z * store * list (loc * Z))%type.
 Definition dev_check (c : dev_case) : bool :=
-  match c with (r, arrs, j, st, fin) =>
-    match dev_final 5000 arrs j r st with
+  match c with (r, arrs, cin, cout, cpy, j, st, fin) =>
+    match dev_final_cl 5000 arrs cin cout cpy j r st with
     | Some s => forallb (fun lv => Z.eqb (val s (fst lv)) (snd lv)) fin
     | None => false
     end
   end.
 """
-
-
-# ------------------------------------------------------------------ regions with calls
-def xstmts_from_psyir(nodes):
-    from psyclone.psyir.nodes import Call, IntrinsicCall
-    out = []
-    for n in nodes:
-        if isinstance(n, Call) and not isinstance(n, IntrinsicCall):
-            if any(n.argument_names):
-                raise mf.OutOfSubset("named call argument")
-            out.append(("call", [mf.expr_from_psyir(a) for a in n.arguments]))
-        else:
-            out.append(mf.stmt_from_psyir(n))
-    return out
-
-
-def xstmts_to_coq(xs, nm):
-    items = []
-    for s in xs:
-        if s[0] == "call":
-            items.append("(XCall [%s])" % "; ".join(mf.expr_to_coq(a, nm) for a in s[1]))
-        else:
-            items.append("(XCore %s)" % mf.stmt_to_coq(s, nm))
-    return "[" + "; ".join(items) + "]"
-
-
-def xstmts_to_fortran(xs):
-    lines = []
-    for s in xs:
-        if s[0] == "call":
-            lines.append("  call foo(%s)" % ", ".join(mf.expr_to_fortran(a) for a in s[1]))
-        else:
-            lines += mf.stmts_to_fortran([s])
-    return lines
-
-
-def routine_text(xs, decls):
-    lines = ["subroutine sub()"]
-    for v, ty, bs in decls:
-        lines.append("  %s%s :: %s" % (ty, (", dimension(%s)" % ", ".join("%d:%d" % b for b in bs)) if bs else "", v))
-    return "\n".join(lines + xstmts_to_fortran(xs) + ["end subroutine sub"]) + "\n"
 
 
 # ------------------------------------------------------------------ implementation side
@@ -112,7 +70,7 @@ def impl_acc(psy, path, lo, hi):
     from psyclone.psyir.backend.fortran import FortranWriter
     import re
     c = psy.copy()
-    routine = c.walk(Routine)[0]
+    routine = C12.find_sub(c)
     sched = C12.follow(routine, path)
     try:
         ACCDataTrans().apply(sched.children[lo:hi])
@@ -226,21 +184,6 @@ class Gen13(C12.Gen12):
                 out.append(self.stmt(env, depth, in_loop))
         return out
 
-    def call(self, env):
-        r = self.r
-        args = []
-        for _ in range(r.randint(1, 3)):
-            c = r.random()
-            if c < 0.35:
-                args.append(("var", r.choice(sorted(self.arrays))))          # whole array by reference
-            elif c < 0.6:
-                args.append(self.ref(env))                                   # array element by reference
-            elif c < 0.8:
-                args.append(("var", r.choice(fortgen.SCALARS)))
-            else:
-                args.append(("bin", "Add", self.ref(env), ("lit", 1)))       # expression: reads only
-        return ("call", args)
-
 
 WITNESSES = [
     (KEY_PARTIAL, [("assign", "a", [("lit", 1)], ("lit", 0))]),
@@ -263,7 +206,8 @@ def run(ctx):
         "the two-memory semantics (undefined device arrays = arbitrary junk, whole declared extent copied back, scalars "
         "shared) is this project's reading of OpenACC structured data regions",
         "Fort/Sem.v + vlib.minifort.interp (validated by ./check _FORT); Fort/Facts.v exec_frame / exec_unchanged / exec_bnd",
-        "calls have no semantics here: regions containing calls are compared with the model statically only"]
+        "a call's semantics is an expansion supplied by the harness: known callees of the same module by their bodies, the "
+        "opaque routine foo conservatively (reads and writes every element of every by-reference argument)"]
     ctx.assumptions = ["acc_run_ok (run-time): no upward-exposed read of an array that is not copied in, array writes in "
                        "bounds, every in-bounds element of every copyout array written",
                        "scalars are outside the claim (modelled as shared between host and device)",
@@ -283,9 +227,9 @@ def run(ctx):
     def do_routine(prog, g, tag, stores):
         nonlocal n_oos
         decls = g.decls()
-        txt = routine_text(prog, decls)
+        txt = C12.routine_text(prog, decls)
         psy = reader.psyir_from_source(txt)
-        routine = psy.walk(Routine)[0]
+        routine = C12.find_sub(psy)
         arrays = sorted(g.arrays)
         bnds = dict(g.arrays)
         nm = mf.Names(sorted(d[0] for d in decls))
@@ -299,11 +243,12 @@ def run(ctx):
             for lo, hi in spans:
                 nodes = sched.children[lo:hi]
                 try:
-                    region = xstmts_from_psyir(nodes)
+                    region = C12.xstmts_from_psyir(nodes)
                 except mf.OutOfSubset:
                     n_oos += 1
                     continue
-                rtxt = "\n".join(xstmts_to_fortran(region))
+                rtxt = "\n".join(C12.xstmts_to_fortran(region))
+                sem = C12.expand_calls(region, bnds)
                 res = impl_acc(psy, path, lo, hi)
                 if res[0] == "text-differs":
                     ctx.violation({"property": "C13", "what": "clauses of the ACCDataDirective node differ from the written "
@@ -317,10 +262,10 @@ def run(ctx):
                 if res[0] == "ok":
                     cin, cout, cpy = res[1:]
                     ctx.hist("clauses", "in%d out%d copy%d" % (min(len(cin), 2), min(len(cout), 2), min(len(cpy), 2)))
-                    if not has_call:
+                    if True:
                         seen = set()
                         for si, (vals, _) in enumerate(stores):
-                            tm = two_memory(region, vals, bnds, arrays, cin, cout, cpy, junk_distinct)
+                            tm = two_memory(sem, vals, bnds, arrays, cin, cout, cpy, junk_distinct)
                             if tm is None:
                                 continue
                             reg["ran"] += 1
@@ -338,10 +283,10 @@ def run(ctx):
                                     seen.add((culprit, kind))
                                     reg["fails"].append((culprit, kind, detail, si, all(tm["run_ok"])))
                             if len(dev_samples) < ctx.pick(12, 120) and rng.random() < 0.15:
-                                tc = two_memory(region, vals, bnds, arrays, cin, cout, cpy, lambda l, n: 7919)
+                                tc = two_memory(sem, vals, bnds, arrays, cin, cout, cpy, lambda l, n: 7919)
                                 if isinstance(tc["dev"], dict):
-                                    dev_samples.append((region, arrays, vals, bnds, tc["dev"], nm, reg))
-                ctx.count(rtxt, res[0] == "ok" and bool(res[1] or res[2] or res[3]) and (has_call or reg["ran"] > 0))
+                                    dev_samples.append((sem, arrays, vals, bnds, tc["dev"], nm, (cin, cout, cpy)))
+                ctx.count(rtxt, res[0] == "ok" and bool(res[1] or res[2] or res[3]) and reg["ran"] > 0)
                 ctx.hist("region_len", hi - lo)
                 ctx.hist("has_call", has_call)
                 regions.append(reg)
@@ -361,8 +306,12 @@ def run(ctx):
             break
         g = Gen13(rng, max_depth=2)
         prog = g.block({}, 0, False, rng.randint(2, 5))
-        if rng.random() < 0.45:
+        c = rng.random()
+        if c < 0.3:
             prog.insert(rng.randint(0, len(prog)), g.call({}))
+        elif c < 0.6:
+            k = rng.randint(0, len(prog))
+            prog[k:k] = g.call_with_partial_write()
         stores = [g.store() for _ in range(nstores)]
         for vals, _ in stores:           # loop variables matter when a loop body is run as a region
             for v in fortgen.LOOPVARS:
@@ -385,7 +334,7 @@ def run(ctx):
         culprits = [c if c in r["nm"].ids else None for c, _, _, _, _ in r["fails"]]
         r["culprit_ids"] = culprits
         coq_cases.append("(%s, %s, %s, %s, %s, %s, %s)" % (
-            xstmts_to_coq(r["xs"], r["nm"]), names(r, r["arrays"]), "true" if r["accepted"] else "false",
+            C12.xstmts_to_coq(r["xs"], r["nm"]), names(r, r["arrays"]), "true" if r["accepted"] else "false",
             names(r, cin), names(r, cout), names(r, cpy), names(r, [c for c in culprits if c is not None])))
     results = C12.coq_eval_values(ctx, HEADER, "c13_case", "eval_case", coq_cases, shard=ctx.pick(70, 100))
     mism = []
@@ -402,13 +351,12 @@ def run(ctx):
     ctx.log("model/impl disagreements=%d" % len(mism))
     # ---- cross-check of the two-memory evaluator against Coq exec_dev
     dcases = []
-    dev_samples[:] = [d for d in dev_samples if d[6]["agrees"]]      # same clauses on both sides, else not comparable
-    for region, arrays, vals, bnds, fin, nm, _ in dev_samples:
+    for region, arrays, vals, bnds, fin, nm, (cin, cout, cpy) in dev_samples:
         fin_c = "; ".join("((%d%%nat, [%s]), (%d))" % (nm.get(k[0]), "; ".join("(%d)" % i for i in k[1]), z)
                           for k, z in sorted(fin.items()))
-        dcases.append("(%s, %s, 7919, %s, [%s])" % (mf.stmts_to_coq(region, nm),
-                                                    core.coq_list("%d%%nat" % nm.get(x) for x in arrays),
-                                                    mf.store_to_coq(vals, bnds, nm), fin_c))
+        nl = lambda xs: core.coq_list("%d%%nat" % nm.get(x) for x in xs)
+        dcases.append("(%s, %s, %s, %s, %s, 7919, %s, [%s])" % (mf.stmts_to_coq(region, nm), nl(arrays), nl(cin), nl(cout),
+                                                               nl(cpy), mf.store_to_coq(vals, bnds, nm), fin_c))
     dbad = ctx.coq_eval_failing(HEADER, "dev_case", "dev_check", dcases, shard=40) if dcases else []
     ctx.notes["two_memory_evaluator_cross_checked"] = len(dcases)
     ctx.log("two-memory evaluator vs Coq exec_dev: %d cases, %d differ" % (len(dcases), len(dbad)))
@@ -458,9 +406,9 @@ def run(ctx):
         if mism:
             r, what = mism[0]
             isarr = "(fun x => mem x %s)" % names(r, r["arrays"])
-            xs = xstmts_to_coq(r["xs"], r["nm"])
-            shown = ctx.coq_eval_show(HEADER, ["(forallb x_accept %s, in_clause %s (xaccs %s) CopyIn, in_clause %s (xaccs %s) "
-                                               "CopyOut, in_clause %s (xaccs %s) Copy)" % (xs, isarr, xs, isarr, xs, isarr, xs)])
+            xs = C12.xstmts_to_coq(r["xs"], r["nm"])
+            shown = ctx.coq_eval_show(HEADER, ["(forallb x_accept %s, in_clause %s (xaccs false %s) CopyIn, in_clause %s (xaccs false %s) "
+                                               "CopyOut, in_clause %s (xaccs false %s) Copy)" % (xs, isarr, xs, isarr, xs, isarr, xs)])
             first = replay_of(r, {"differs_in": what, "implementation_accepted": r["accepted"],
                                   "model (accepts, copyin, copyout, copy)": shown, "names": r["nm"].ids})
         ctx.violation({"property": "C13",
